@@ -169,7 +169,7 @@ func run(e *ev.Env) {
 	}
 
 	en.keys()
-	en.splitScalar()
+	// en.splitScalar() is not run: the statement covers comma-free values only under splitting (see extra.go)
 	en.totality()
 
 	e.Stat("trips_total", en.g.r[0].trips+en.g.r[1].trips)
